@@ -165,7 +165,9 @@ func deepClones(x *Ctx) {
 				}
 			})
 			for fld, v := range p.FieldStores(cell) {
-				fresh := v.Op == "make" || (v.Op == "call" && (v.Name == "slices.Clone" || v.Name == "maps.Clone" || strings.HasPrefix(v.Name, "slices.Clone[") || strings.HasPrefix(v.Name, "maps.Clone[")))
+				fresh := v.Op == "make" || (v.Op == "call" && (v.Name == "slices.Clone" || v.Name == "maps.Clone" || strings.HasPrefix(v.Name, "slices.Clone[") || strings.HasPrefix(v.Name, "maps.Clone["))) ||
+					// append(fresh, src...) / append([]T(nil), src...): the result is backed by the fresh destination
+					(v.Op == "call" && v.Name == "builtin.append" && len(v.Args) == 2 && (v.Args[0].Op == "make" || v.Args[0].IsNil()))
 				if !fresh {
 					ok = false
 					detail += "field " + fld + " of the clone is " + v.String() + ", not a fresh container\n"
